@@ -17,11 +17,11 @@ import (
 )
 
 func (e *env) client(r *reqT) (client.Client, error) {
-	key := r.Cfg + "/" + r.Cred
+	key := r.Cfg + "/" + r.Tr + "/" + r.Cred
 	if c, ok := e.clients[key]; ok {
 		return c, nil
 	}
-	addr, err := ma.NewMultiaddr("/ip4/127.0.0.1/tcp/" + e.addr[r.Cfg][len("127.0.0.1:"):])
+	addr, err := ma.NewMultiaddr("/ip4/127.0.0.1/tcp/" + e.apiAddr(r)[len("127.0.0.1:"):])
 	if err != nil {
 		return nil, err
 	}
